@@ -193,12 +193,26 @@ def _generic_shared(rng, tier, i):
     root = S.build(sp)
     # the tree may be in any state when the shared node is installed: fresh, or derived (non-zero entries
     # although this very object was never filled) by a merge, a scaling or a copy of a filled tree
-    pre = rng.choice(["fresh", "fresh", "merged", "scaled", "copied"])
+    pre = rng.choice(["fresh", "fresh", "merged", "scaled", "copied", "combined", "incremented", "pickled", "imerged"])
     if pre != "fresh":
         try:
+            import pickle
+
+            import histogrammar.defs as defs
+
             base = C.fill_all(S.build(sp), S.gen_stream(rng, sp, rng.randint(1, 4), {"nonpos_p": 0.0}))
             if pre == "merged":
                 root = base + C.fill_all(S.build(sp), S.gen_stream(rng, sp, 2, {"nonpos_p": 0.0}))
+            elif pre == "combined":
+                # the Spark helpers: the result of combine() of two filled (hence verified) trees is a new tree
+                root = defs.combine(base, C.fill_all(S.build(sp), S.gen_stream(rng, sp, 2, {"nonpos_p": 0.0})))
+            elif pre == "incremented":
+                root = defs.combine(defs.increment(base.zero(), S.gen_record(rng, {}, {"cat_none": False})), base)
+            elif pre == "pickled":
+                root = pickle.loads(pickle.dumps(base.zero() + base))
+            elif pre == "imerged":
+                root = base.zero()
+                root += base
             elif pre == "scaled" and not S.has_transform(sp):
                 root = base * 2.0
             else:
